@@ -38,9 +38,10 @@ type stageCfg struct {
 type cfg struct {
 	name   string
 	stages []stageCfg
-	cancel time.Duration // caller cancels at this instant (-1 never)
-	limit  uint64        // max-iterations (0: none)
-	twice  bool          // the same stages worker is run a second time (a second run with the same trigger)
+	cancel time.Duration     // caller cancels at this instant (-1 never)
+	limit  uint64            // max-iterations (0: none)
+	twice  bool              // the same stages worker is run a second time (a second run with the same trigger)
+	preset map[string]string // already in the process environment when the run starts (names of the first stage's parameters)
 }
 
 func envNow() string {
@@ -68,6 +69,9 @@ func scenario(c cfg) vrt.Scenario {
 	body := func() {
 		for _, k := range allKeys {
 			os.Unsetenv(k)
+		}
+		for k, v := range c.preset {
+			os.Setenv(k, v)
 		}
 		stats := &progress.Stats{}
 		vatomic.QuietAll(stats)
@@ -185,19 +189,20 @@ func scenariosFor(tier string) []vrt.Scenario {
 	ab1 := map[string]string{"VERIF_A": "x", "VERIF_B": "x"}
 	a2 := map[string]string{"VERIF_A": "y", "VERIF_C": "y"}
 	cfgs := []cfg{
-		{"distinct-keys", []stageCfg{{0, a}, {0, b}}, -1, 0, false},
-		{"empty-parameter-value", []stageCfg{{0, a}, {0, map[string]string{"VERIF_A": "", "VERIF_B": "2"}}, {0, map[string]string{"VERIF_C": ""}}}, -1, 0, false},
-		{"inherited-parameters-shared-by-stages", []stageCfg{{0, ab1}, {0, a2}, {0, ab1}, {1, ab1}, {0, ab1}}, -1, 0, false},
-		{"two-runs-of-one-trigger", []stageCfg{{0, a}, {0, ab1}}, -1, 0, true},
-		{"two-runs-of-one-trigger/first-cut-short", []stageCfg{{0, a}, {0, ab1}}, 350 * time.Millisecond, 0, true},
-		{"overlapping-keys", []stageCfg{{0, ab1}, {0, a2}}, -1, 0, false},
-		{"overlapping-keys-users-first", []stageCfg{{1, ab1}, {0, a2}}, -1, 0, false},
-		{"three-stages", []stageCfg{{0, a}, {1, ab1}, {0, a2}}, -1, 0, false},
-		{"cancel-in-first-stage", []stageCfg{{0, ab1}, {0, a2}}, 150 * time.Millisecond, 0, false},
-		{"cancel-at-stage-boundary", []stageCfg{{0, ab1}, {0, a2}}, 300 * time.Millisecond, 0, false},
-		{"no-parameters", []stageCfg{{0, nil}, {0, a}}, -1, 0, false},
-		{"limit-reached-in-first-stage", []stageCfg{{0, a}, {0, ab1}, {0, a2}}, -1, 2, false},
-		{"limit-reached-in-users-stage", []stageCfg{{1, ab1}, {0, a2}}, -1, 1, false},
+		{"distinct-keys", []stageCfg{{0, a}, {0, b}}, -1, 0, false, nil},
+		{"empty-parameter-value", []stageCfg{{0, a}, {0, map[string]string{"VERIF_A": "", "VERIF_B": "2"}}, {0, map[string]string{"VERIF_C": ""}}}, -1, 0, false, nil},
+		{"inherited-parameters-shared-by-stages", []stageCfg{{0, ab1}, {0, a2}, {0, ab1}, {1, ab1}, {0, ab1}}, -1, 0, false, nil},
+		{"two-runs-of-one-trigger", []stageCfg{{0, a}, {0, ab1}}, -1, 0, true, nil},
+		{"two-runs-of-one-trigger/first-cut-short", []stageCfg{{0, a}, {0, ab1}}, 350 * time.Millisecond, 0, true, nil},
+		{"parameter-name-already-in-the-process-environment", []stageCfg{{0, ab1}, {0, b}}, -1, 0, false, map[string]string{"VERIF_A": "outer", "VERIF_B": ""}},
+		{"overlapping-keys", []stageCfg{{0, ab1}, {0, a2}}, -1, 0, false, nil},
+		{"overlapping-keys-users-first", []stageCfg{{1, ab1}, {0, a2}}, -1, 0, false, nil},
+		{"three-stages", []stageCfg{{0, a}, {1, ab1}, {0, a2}}, -1, 0, false, nil},
+		{"cancel-in-first-stage", []stageCfg{{0, ab1}, {0, a2}}, 150 * time.Millisecond, 0, false, nil},
+		{"cancel-at-stage-boundary", []stageCfg{{0, ab1}, {0, a2}}, 300 * time.Millisecond, 0, false, nil},
+		{"no-parameters", []stageCfg{{0, nil}, {0, a}}, -1, 0, false, nil},
+		{"limit-reached-in-first-stage", []stageCfg{{0, a}, {0, ab1}, {0, a2}}, -1, 2, false, nil},
+		{"limit-reached-in-users-stage", []stageCfg{{1, ab1}, {0, a2}}, -1, 1, false, nil},
 	}
 	var out []vrt.Scenario
 	out = append(out, scenario(cfgs[0]).WithPlainPoints(1), scenario(cfgs[2]).WithPlainPoints(1))
